@@ -11,6 +11,16 @@ CHECKS = {
          "Held on >=1M (quick) / 40M (thorough) seeded inputs covering every mutation operator in both accepted and rejected outcomes; panics are caught per input. Exploration is the right level: the domain is byte strings, the oracle is a total function of input and output.",
          "Trusts harness/ptrspec as the transcription of docs/spec.md; valid pointers are < 1024 bytes with ascending distinct extension priorities.",
          "DESIGN.md §5 C07"),
+ "C06": ("fault_enumeration",
+         "runtime monitor: real TransferQueue under -race with scripted batch server + scripted adapter, seeded yields; boundary-history oracle (termination by quiescence, conservation, delivery counts) + hooked pending counter",
+         "Held on 432 (quick) / 6480 (thorough) seeded fault scripts over 18 fault themes incl. every single-fault kind named in the property, with GOMAXPROCS 1/2/4/16 and seeded yields; child process per 54 cases so a panic is attributed to its case. Fault enumeration by themes is the right level: the property quantifies over server/adapter behaviours and schedules.",
+         "Schedules are sampled (race detector + yields), not enumerated. Hang verdict needs 20 s of logical quiescence. Fake adapter stands for any adapter behaviour; the real adapters are exercised by C02.",
+         "DESIGN.md §5 C06"),
+ "C15": ("fault_enumeration",
+         "runtime monitor: same harness as C06; oracle over adapter attempt record and hook events (attempt counts, overlap, sound lower bounds for Retry-After, logged computed back-off values, expired actions)",
+         "Held on 320 (quick) / 4000 (thorough) seeded failure scripts x maxretries {1,2,3,8} x maxretrydelay {0,1,default} x concurrency 1-8. Lower bounds on waits are measured from stamps taken before the answer is released (sound under load); upper bounds are judged on the delay value the code computed (hook), never on elapsed time.",
+         "Back-off sleeps are scaled by 0.01 through the verif hook (the unscaled value is what is logged and judged); actions expiring within 5 s are exercised but not judged.",
+         "DESIGN.md §5 C15"),
 }
 
 NOT_YET = {}
